@@ -657,27 +657,50 @@ func cmdMin(args []string) {
 	defer os.Remove(m.tmp)
 	plans := pf.Plans
 	if *regen != "" {
-		// which earlier runs of that process matter? grow a suffix of them
-		// (1, 2, 4, ... runs before the failing one) until the failure shows
+		// Which earlier runs of that process matter? First the whole history
+		// (that must reproduce, or something is not deterministic), then a
+		// binary search for the shortest suffix of earlier runs that still
+		// fails (assumes that a longer history does not hide the failure;
+		// the result is verified, so a wrong assumption only costs size).
 		target := plans[len(plans)-1]
-		found := false
-		for k := 1; ; k *= 2 {
-			if k > len(plans)-1 {
-				k = len(plans) - 1
-			}
-			cand := append(append([]*Plan{}, plans[len(plans)-1-k:len(plans)-1]...), target)
-			if m.fails(cand) {
-				plans, found = cand, true
-				break
-			}
-			if k == len(plans)-1 || time.Now().After(m.deadline) {
+		n := len(plans) - 1
+		suffix := func(k int) []*Plan {
+			return append(append([]*Plan{}, plans[n-k:n]...), target)
+		}
+		best := -1
+		// cheap attempts first: the failing run alone, then a few runs before it
+		for _, k := range []int{0, 1, 4, 16, 64} {
+			if k <= n && m.fails(suffix(k)) {
+				best = k
 				break
 			}
 		}
-		if !found {
+		if best < 0 {
+			// the whole history may take as long as the worker took: no deadline for this one
+			saved := m.deadline
+			m.deadline = time.Now().Add(20 * time.Minute)
+			if m.fails(suffix(n)) {
+				best = n
+			}
+			m.deadline = saved
+			if best == n {
+				lo, hi := 64, n // fails at hi, assumed not to fail at lo
+				for hi-lo > 8 && time.Now().Before(m.deadline) {
+					mid := (lo + hi) / 2
+					if m.fails(suffix(mid)) {
+						hi = mid
+					} else {
+						lo = mid
+					}
+				}
+				best = hi
+			}
+		}
+		if best < 0 {
 			fmt.Println(`{"type":"min","reproduced":false}`)
 			os.Exit(3)
 		}
+		plans = suffix(best)
 	} else if !m.fails(plans) {
 		// not reproducible in a fresh process as it stands
 		fmt.Println(`{"type":"min","reproduced":false}`)
